@@ -47,6 +47,9 @@ struct Workload
 struct OutputSink
 {
     uint64_t digest{1469598103934665603ull};
+    size_t tail{0};  // C20 only: a reported view that leaves the payload is followed for up to this many bytes past the payload's end
+                     // (the C20 allocator over-allocates every block by 16 poisoned bytes, so the read is inside the allocation natively
+                     // and an invalid read under memcheck); 0 = views are only read when they lie inside the payload
     std::function<void(const void*, size_t, const char*)> inspect;  // optional
     size_t bytes{0};
     void put(const void* p, size_t n, const char* what)
@@ -100,6 +103,8 @@ inline void sinkView(const lib::Payload& pl, const void* ptr, size_t len, Output
     const uint8_t* p = static_cast<const uint8_t*>(ptr);
     if (p && len && p >= raw && p <= raw + pl.getLength() && len <= static_cast<size_t>(raw + pl.getLength() - p))
         out.put(p, len, what);
+    else if (out.tail && p && len && p >= raw && p <= raw + pl.getLength())
+        out.put(p, std::min(len, static_cast<size_t>(raw + pl.getLength() - p) + out.tail), what);  // what the view's user reads first
 }
 inline void sinkTyped(const lib::Packet& pk, OutputSink& out)
 {
@@ -254,6 +259,35 @@ inline rc::Gen<FrameRecipe> genTypedFrame()
             }
             else
                 m.bytes = oracleBytes(r, deriveFields(r));
+            // one typed payload in five carries a 16-bit inner length / count at the top of its range (sums with small constants wrap
+            // there) followed by zeros that read as "nothing more": a validator has to reject it, and what the decoder hands out for it
+            // must not depend on memory behind the payload
+            if (*range<int>(0, 4) == 0 && (r.kind == rkIfStatus || r.kind == rkCmStatus || r.kind == rkEthernet))
+            {
+                const uint16_t top = *rc::gen::element<uint16_t>(0xFFFF, 0xFFFF, 0xFFFE, 0xFFFD, 0xFFFC);
+                if (r.kind == rkEthernet)
+                {
+                    if (m.bytes.size() >= 6)
+                        wire::set16(m.bytes.data() + 4, top);
+                }
+                else
+                {
+                    const size_t hs = r.kind == rkIfStatus ? wire::kIfStatusHeader : wire::kCmStatusHeader;
+                    if (m.bytes.size() >= hs)
+                    {
+                        m.bytes.resize(hs);
+                        int lead = r.kind == rkCmStatus ? *range<int>(0, 4) : 0;  // empty fields before the wrapped one
+                        for (int k = 0; k < lead; ++k)
+                        {
+                            m.bytes.push_back(0);
+                            m.bytes.push_back(0);
+                        }
+                        m.bytes.push_back(static_cast<uint8_t>(top >> 8));
+                        m.bytes.push_back(static_cast<uint8_t>(top));
+                        m.bytes.insert(m.bytes.end(), *range<size_t>(2, 12), 0);
+                    }
+                }
+            }
             f.msgs.push_back(m);
         }
         return f;
